@@ -241,6 +241,8 @@ def run_check(prop, module, tier, seed):
             kf = match_known(prop, ob.id, findings)
             if kf:
                 known_hit.append((ob, v, kf))
+                n_real -= 1          # reported separately: not part of the obligations claimed to hold
+                by_kind[ob.kind] -= 1
             elif ob.deciding:
                 violations.append((ob, v, None))
             else:
@@ -291,6 +293,7 @@ def run_check(prop, module, tier, seed):
         'canaries_refuted': sum(1 for ob, v in zip(obs, verdicts) if ob.kind == 'canary' and v.status == 'refuted'),
         'covers_satisfied': sum(1 for ob, v in zip(obs, verdicts) if ob.kind == 'cover' and v.status == 'proved'),
         'known_findings_hit': [kf['id'] for _, _, kf in known_hit],
+        'obligations_refuted_as_known_findings': [ob.id for ob, _, _ in known_hit],
         'undecided': [ob.id for ob, _ in undecided],
         'samples': jsonable(samples),
         'explanation': spec.get('note', ''),
